@@ -124,7 +124,17 @@ class Multi(Histories):
         nc = dict(classes=nn, files={}, base=nb[0], context=None)
         nc['ops'] = [{'op': 'build', 'base': b} for b in nb] + [{'op': 'multi', 'bases': nb}] + \
                     [{'op': 'value', 'chain': ch, 'pick': k} for ch in (3, 4, 5) for k in (0, 1)]
-        return [c, d, g, n, sh, nc]
+        # load -> clean (shared by the chains) -> report (differs per chain): forcing load through the MultiChain marks the
+        # reports of every chain
+        lc = [dict(K(0, 'Load'), name='load'), dict(K(1, 'Clean', meta_inputs=[{'cls': 0}]), name='clean'),
+              dict(K(2, 'Report', meta_inputs=[{'cls': 1}], params=[P('a')]), name='report')]
+        lb = [{'name': f'c{i}', 'data': {'tasks': ['@M.*'], 'a': i}} for i in (1, 2, 3)]
+        lf = dict(classes=lc, files={}, base=lb[0], context=None)
+        lf['ops'] = [{'op': 'build', 'base': lb[0]}, {'op': 'multi', 'bases': lb}] + \
+                    [{'op': 'value', 'chain': ch, 'pick': 2} for ch in (1, 2, 3)] + \
+                    [{'op': 'force_multi', 'multi': 0, 'picks': [0], 'recompute': False, 'delete': False}] + \
+                    [{'op': 'flags', 'chain': ch} for ch in (1, 2, 3)] + [{'op': 'value', 'chain': ch, 'pick': 2} for ch in (3, 2, 1)]
+        return [c, d, g, n, sh, nc, lf]
 
     def oracle(self, case, obs):
         m = multi_oracle(case, obs)
@@ -148,14 +158,15 @@ class ObjectUses(Suite):
     def run_impl(self, case):
         from taskchain import Config, MultiChain
         from .. import pipeline as pl
-        classes = [dict(K(0, 'Src', params=[P('x')]), name='src'), dict(K(1, 'Dst', meta_inputs=[{'cls': 0}]), name='dst')]
+        classes = [dict(K(0, 'Src', params=[P('x')]), name='src'), dict(K(1, 'Dst', meta_inputs=[{'cls': 0}]), name='dst'),
+                   dict(K(2, 'Free', data='memory'), name='free')]      # Free: a task no context touches
         with pl.workspace(dict(classes=classes, files={})) as (d, mod):
             def configs(shared):
                 common = None
                 out = []
                 for i, x in enumerate(case['xs']):
                     if common is None or not shared:
-                        common = Config(Path('data'), name='common', data={'tasks': [f'{mod}.Src'], 'x': 0},
+                        common = Config(Path('data'), name='common', data={'tasks': [f'{mod}.Src', f'{mod}.Free'], 'x': 0},
                                         namespace=case['ns'])
                     data = {'tasks': [f'{mod}.Dst'], 'uses': [common]}
                     kw = {}
@@ -168,7 +179,9 @@ class ObjectUses(Suite):
             res = {}
             mc = MultiChain(configs(shared=True))
             res['multi'] = {n: pl.observe_chain(ch, with_paths=True) for n, ch in mc.chains.items()}
+            before = pl.runs_started()
             res['multi_values'] = {n: {t: ch.tasks[t].value for t in ch.tasks} for n, ch in mc.chains.items()}
+            res['multi_runs'] = pl.runs_started() - before
             res['alone'], res['alone_values'] = {}, {}
             for cfg in configs(shared=False):
                 ch = cfg.chain()
@@ -189,6 +202,15 @@ class ObjectUses(Suite):
                             f'{o.get("path")} in the standalone chain of the same config')
                 if json.dumps(obs['multi_values'][n][t], sort_keys=True) != json.dumps(obs['alone_values'][n][t], sort_keys=True):
                     return f'{case}: task {t} of chain {n} yields {obs["multi_values"][n][t]} in the MultiChain, {obs["alone_values"][n][t]} standalone'
+        # the same computation is one object in every member: also for a task the members' contexts do not touch
+        seen = {}
+        for n, m in obs['multi'].items():
+            for t, o in m['tasks'].items():
+                k = (o['slug'], o['key'])
+                if k in seen and seen[k][1] != o['objid']:
+                    return (f'{case}: {t} is the same computation (key {o["key"]}) in chains {seen[k][0]} and {n} but two task objects: '
+                            f'a value computed through one chain is not in memory for the other')
+                seen.setdefault(k, (n, o['objid']))
         return None
 
     def nontrivial(self, case, obs):
